@@ -104,6 +104,21 @@ def runDecode (t : List String) : String :=
     | _, _, _, _ => "bad-case"
   | _ => "bad-case"
 
+/-- `R <fmt> <W> <H> <x> <y> <w> <h> <seed>`: a rectangle decode (`decode_rect`, mod.rs) of a rectangle inside the
+surface consumes the advertised bytes of the whole surface; otherwise `RectOutOfBounds`. -/
+def runRect (t : List String) : String :=
+  match t with
+  | [f, sw, sh, x, y, w, h, seed] =>
+    match getFormat f, natsOf [sw, sh, x, y, w, h, seed] with
+    | some f, some [sw, sh, x, y, w, h, _] =>
+      if sw = 0 ∨ sh = 0 ∨ sw > 4096 ∨ sh > 4096 ∨ w = 0 ∨ h = 0 ∨ w > 4096 ∨ h > 4096 then "bad-case" else
+      if x ≥ 2^32 ∨ y ≥ 2^32 then "bad-case" else
+      match surfBytes f sw sh with
+      | some n => if x + w ≤ sw ∧ y + h ≤ sh then s!"ok {n}" else "err RectOutOfBounds"
+      | none => "bad-case"
+    | _, _ => "bad-case"
+  | _ => "bad-case"
+
 def runEncode (t : List String) : String :=
   match t with
   | [f, w, h, c, par, seed] =>
@@ -130,8 +145,13 @@ def runEncode (t : List String) : String :=
 /-- `1` = the model demands byte equality, `?` = no prediction -/
 def must (b : Bool) : String := if b then "1" else "?"
 
+/-- the optional sixth token is the compression quality (0..3): no prediction of the model depends on it -/
 def runDither (t : List String) : String :=
-  match t with
+  let t5 : Option (List String) := match t with
+    | [f, w, h, c, seed] => some [f, w, h, c, seed]
+    | [f, w, h, c, seed, q] => if (nat? q).any (· < 4) then some [f, w, h, c, seed] else none
+    | _ => none
+  match t5.getD [] with
   | [f, w, h, c, seed] =>
     match getFormat f, nat? w, nat? h, getColor c, nat? seed with
     | some f, some w, some h, some c, some _ =>
@@ -182,6 +202,7 @@ def runC19 (line : String) : String :=
   | "H" :: rest => C19Drv.runHeader rest
   | "M" :: rest => C19Drv.runMeta rest
   | "D" :: rest => C19Drv.runDecode rest
+  | "R" :: rest => C19Drv.runRect rest
   | "E" :: rest => C19Drv.runEncode rest
   | "T" :: rest => C19Drv.runDither rest
   | "G" :: rest => C19Drv.runCanary rest
